@@ -477,7 +477,7 @@ func (t *TransportLayerCC) Unmarshal(rawPacket []byte) error { //nolint:gocognit
 	packetStatusPos := uint16(headerLength + packetChunkOffset)
 	var processedPacketNum uint16
 	for processedPacketNum < t.PacketStatusCount {
-		if packetStatusPos+packetStatusChunkLength >= totalLength {
+		if packetStatusPos+packetStatusChunkLength > totalLength {
 			return errPacketTooShort
 		}
 		typ := getNBitsFromByte(rawPacket[packetStatusPos : packetStatusPos+1][0], 0, 1)
